@@ -140,8 +140,14 @@ fn get_text_position(element: &mut SvgElement) -> Result<(f32, f32, bool, LocSpe
     // Assumption is that text should be centered within the rect,
     // and has styling via CSS to reflect this, e.g.:
     //  text.d-text { dominant-baseline: central; text-anchor: middle; }
-    let (mut tdx, mut tdy) = element
-        .bbox()?
+    // a <text> element keeps its own `transform`, which then also applies to the
+    // anchor: derive the anchor from the untransformed position
+    let bbox = if element.name == "text" {
+        element.clone().without_attr("transform").bbox()?
+    } else {
+        element.bbox()?
+    };
+    let (mut tdx, mut tdy) = bbox
         .ok_or_else(|| SvgdxError::MissingBoundingBox(element.to_string()))?
         .locspec(text_anchor);
     tdx += t_dx;
